@@ -337,6 +337,17 @@ def gen_specs(tier):
           ("param", "IntegerType", [("set", [("int", 8), ("int", 16)]), ("any",)]), ("param", "GPair", [("param", "IntegerType", [T_ANY, ("any",)]), T_ANY]),
           ("paramget", "GPair", [("eq", I0), ("eq", I1)]), ("paramget", "GPair", [("any",), ("any",)]), ("paramget", "GPair", [("eq", I0), ("any",)]),
           ("anyof", [("param", "GPair", [T_ANY, T_ANY]), ("base", "IntAttr")]), ("anyof", [("param", "GPair", [T_ANY, T_ANY]), T_INT]) if False else ("anyof", [("param", "GPair", [T_INT, T_INT]), ("eq", I0)])]
+    # unions whose alternatives are occurrences of the SAME variable with different inner constraints (and of different variables with the
+    # same inner constraint): merging alternatives must compare the whole variable constraint, not its name or its body alone
+    T_STR, T_ITY, U_INT = ("var", "T", ("base", "StringAttr")), ("var", "T", ("base", "IntegerType")), ("var", "U", ("base", "IntAttr"))
+    for a, b in ((T_INT, T_STR), (T_STR, T_INT), (T_INT, T_ITY), (T_INT, T_ANY), (T_ANY, T_INT), (T_INT, U_INT), (T_ANY, U_ANY), (T_INT, ("var", "T", ("eq", I0)))):
+        S.append(("anyof", [a, b]))
+        S.append(("or", a, b))
+        S.append(("anyof", [("param", "GPair", [a, ("any",)]), ("param", "GPair", [b, ("any",)])]))
+        S.append(("anyof", [("param", "GPair", [("any",), a]), ("param", "GPair", [("any",), b])]))
+        S.append(("or", ("param", "GPair", [a, ("base", "IntAttr")]), ("param", "GPair", [b, ("base", "IntAttr")])))
+    S.append(("anyof", [T_INT, ("base", "UnitAttr"), T_STR]))
+    S.append(("param", "GPair", [("anyof", [T_INT, T_STR]), ("any",)]))
     # unions / intersections of leaves
     pairs = list(itertools.combinations(LEAVES, 2))
     if tier == "quick":
